@@ -280,3 +280,67 @@ func init() {
 		return VStruct{F: []Value{c, VFunc{T: cancel}}}, true
 	})
 }
+
+// ---- protobuf descriptors: the pieces of descriptor state the GET decision depends on, as
+// uninterpreted (hence deterministic) functions of the descriptor value.
+func init() {
+	regModel("(google.golang.org/protobuf/reflect/protoreflect.MethodDescriptor).Options", func(x *Exec, fr *Frame, st *State, a []Value, pos token.Pos, rt types.Type) (Value, bool) {
+		d, ok := a[0].(VIface)
+		if !ok {
+			return nil, false
+		}
+		ft := x.vc.Fun("uf|optsTag", []Sort{SInt, SInt}, SInt)
+		fv := x.vc.Fun("uf|optsVal", []Sort{SInt, SInt}, SInt)
+		tag, val := app(SInt, ft, d.Tag, d.Val), app(SInt, fv, d.Tag, d.Val)
+		x.fact("opts:"+tag.S, And(Gt(tag, IntLit(0)), Ge(val, IntLit(0))))
+		return VIface{tag, val}, true
+	})
+	libFrames["(google.golang.org/protobuf/reflect/protoreflect.MethodDescriptor).Options"] = map[string]Sort{}
+	regModel("(*google.golang.org/protobuf/types/descriptorpb.MethodOptions).GetIdempotencyLevel", func(x *Exec, fr *Frame, st *State, a []Value, pos token.Pos, rt types.Type) (Value, bool) {
+		// generated getter: nil-safe, returns the field or IDEMPOTENCY_UNKNOWN (0)
+		p := tOf(a[0])
+		f := x.vc.Fun("uf|idemLevel", []Sort{SInt}, SInt)
+		r := app(SInt, f, p)
+		x.fact("idem:"+r.S, And(Ge(r, IntLit(0)), Le(r, IntLit(2))))
+		return VTerm{x.vc.Name(Ite(Eq(p, IntLit(0)), IntLit(0), r), "idem")}, true
+	})
+	libFrames["(*google.golang.org/protobuf/types/descriptorpb.MethodOptions).GetIdempotencyLevel"] = map[string]Sort{}
+}
+
+// ---- net/url.Values (a map[string][]string without key canonicalisation)
+func init() {
+	regModel("(net/url.Values).Set", func(x *Exec, fr *Frame, st *State, a []Value, pos token.Pos, rt types.Type) (Value, bool) {
+		m := tOf(a[0])
+		x.oblige(fr, st, "nil", "map:url.Values.Set", "assignment to entry in nil map (url.Values.Set)", pos, Neq(m, IntLit(0)), nil)
+		x.mapStore(st, x.hdrShape(), m, tOf(a[1]), x.newStrSlice1(fr, st, tOf(a[2])))
+		return VStruct{}, true
+	})
+	libFrames["(net/url.Values).Set"] = hdrKeys()
+	regModel("(net/url.Values).Encode", func(x *Exec, fr *Frame, st *State, a []Value, pos token.Pos, rt types.Type) (Value, bool) {
+		// deterministic: the same map in the same heap version encodes to the same string
+		m := tOf(a[0])
+		key := "urlenc:" + m.S
+		for _, k := range sortedKeys(hdrKeys()) {
+			key += "|" + x.heapGet(st, k, hdrKeys()[k]).S
+		}
+		if x.encCache == nil {
+			x.encCache = map[string]Term{}
+		}
+		if t, ok := x.encCache[key]; ok {
+			return VTerm{t}, true
+		}
+		t := x.vc.Fresh("urlenc", SStr)
+		x.vc.strFacts(t)
+		x.encCache[key] = t
+		return VTerm{t}, true
+	})
+	libFrames["(net/url.Values).Encode"] = map[string]Sort{}
+	regModel("(*encoding/base64.Encoding).EncodedLen", func(x *Exec, fr *Frame, st *State, a []Value, pos token.Pos, rt types.Type) (Value, bool) {
+		n := tOf(a[1])
+		r := x.vc.Fresh("b64len", SInt)
+		// between n and 2n+4 for every alphabet and padding mode (exactly ceil(4n/3) or 4*ceil(n/3))
+		x.vc.Assert(Implies(Ge(n, IntLit(0)), And(Ge(r, n), Le(r, Add(Add(n, n), IntLit(4))))))
+		return VTerm{r}, true
+	})
+	libFrames["(*encoding/base64.Encoding).EncodedLen"] = map[string]Sort{}
+}
